@@ -759,11 +759,67 @@ class CallGraph:
         for p, s in world.fns.items():
             if s["kind"] == "closure" and s.get("parent"):
                 self.closure_children[s["parent"]].append(p)
+        # workspace impls of third-party traits, by the ADT they are implemented for: a third-party callee that is handed such a
+        # value may call these methods (parol's parser calling the generated semantic actions, serde visitors, ...)
+        ext_impls = defaultdict(list)
+        for im in world.impls:
+            tr = im.get("trait") or ""
+            if tr.lstrip("<").startswith(("veryl", "mdbook_veryl", "highlightgen", "core::", "alloc::", "std::")):
+                continue
+            adt = im.get("self_adt")
+            if not adt:
+                continue
+            items = im.get("items")
+            if isinstance(items, dict):
+                paths = list(items.values())
+            else:
+                paths = ["<%s as %s>::%s" % (im.get("self"), im.get("tref") or tr, it) for it in (items or [])]
+            ext_impls[adt].extend(paths)
+        self._ext_impls = ext_impls
+        # `x.into()` / `x.try_into()` resolve to core's blanket impls, whose bodies (calling the workspace From/TryFrom impl) are
+        # not in the facts: connect them by the source type
+        def _norm(t):
+            t = re.sub(r"'[a-z_0-9]+\s*,?\s*", "", t or "")
+            return t.replace("<>", "").replace(" ", "")
+        from_index = defaultdict(list)
+        for q in world.fns:
+            m = re.match(r"^<(.+) as core::convert::(Try)?From<(.+)>>::(try_)?from$", q)
+            if m:
+                from_index[(bool(m.group(2)), _norm(m.group(3)))].append(q)
+        for p, s in world.fns.items():
+            for c in s["calls"]:
+                cc = c["c"] or ""
+                if cc in ("<T as core::convert::TryInto<U>>::try_into", "<T as core::convert::Into<U>>::into") and c.get("self"):
+                    for q in from_index.get((cc.endswith("try_into"), _norm(c["self"])), ()):
+                        self.edges[p].add(q)
+        # unsizing a workspace value to `dyn Trait`: whoever receives the trait object may call the impl's methods
+        by_adt_trait = defaultdict(list)
+        for im in world.impls:
+            adt = im.get("self_adt")
+            items = im.get("items")
+            if not adt or not items:
+                continue
+            tr = im.get("trait") or ""
+            paths = list(items.values()) if isinstance(items, dict) else ["<%s as %s>::%s" % (im.get("self"), im.get("tref") or tr, it) for it in items]
+            by_adt_trait[(adt, tr)].extend(paths)
+        for p, s in world.fns.items():
+            for src_ty, dst_ty in s.get("dyncasts", ()):
+                for (adt, tr), paths in by_adt_trait.items():
+                    if tr and tr in dst_ty and adt in src_ty:
+                        for q in paths:
+                            if q in world.fns:
+                                self.edges[p].add(q)
         for p, s in world.fns.items():
             for c in s["calls"]:
                 callee = c["c"]
                 if callee is None:
                     continue
+                for ty in c.get("at", ()):
+                    for adt, paths in ext_impls.items():
+                        if adt in ty:
+                            for q in paths:
+                                if q in world.fns:
+                                    self.edges[p].add(q)
                 targets = [callee]
                 if c["r"] in ("trait", "dyn") and c.get("tm"):
                     targets = list(self.by_trait_item.get(c["tm"], []))
@@ -802,6 +858,27 @@ class CallGraph:
                     parent.setdefault(y, x)
                     dq.append(y)
         self._parent = parent
+        return seen
+
+    def reachable_static(self, roots):
+        """Under-approximate reachability: statically resolved calls and the caller's own closures only (no dyn / generic fan-out,
+        no callbacks). The sound direction for "X does happen" claims."""
+        w = self.w
+        seen = set()
+        dq = deque(roots)
+        while dq:
+            x = dq.popleft()
+            if x in seen or x not in w.fns:
+                continue
+            seen.add(x)
+            s = w.fns[x]
+            for c in s["calls"]:
+                if c["c"] and c["r"] == "static" and c["c"] in w.fns:
+                    dq.append(c["c"])
+                for cl in c.get("cl", []) or []:
+                    dq.append(cl)
+            for cl in s.get("closures", []):
+                dq.append(cl)
         return seen
 
     def path_to(self, target):
